@@ -1,0 +1,58 @@
+//go:build verif
+
+package internal
+
+// Contracts for internal/raw_http_body.go (C17): the raw body encoders write exactly the
+// specified bytes. Output is observed through the ghost sink model of io.Writer (wrOut) and
+// of bytes.Buffer (bufContent); compressors follow the model assumed for connect.Compressor
+// in /verif/contracts/extern/deps.vc (compressOf(format, data), identity for format 1).
+
+// the uncompressed bytes a MessageContents denotes
+//@ spec msgPayload(c *conformancev1.MessageContents) string =
+//@    typeis(c.Data, *conformancev1.MessageContents_Binary) ? bytes(unbox(c.Data, *conformancev1.MessageContents_Binary).Binary) :
+//@    (typeis(c.Data, *conformancev1.MessageContents_BinaryMessage) ? bytes(unbox(c.Data, *conformancev1.MessageContents_BinaryMessage).BinaryMessage.Value) :
+//@    (typeis(c.Data, *conformancev1.MessageContents_Text) ? unbox(c.Data, *conformancev1.MessageContents_Text).Text : ""))
+// compression 0 (unspecified) means identity (1)
+//@ spec cmpId(c int) int = c == 0 ? 1 : c
+// the bytes a MessageContents puts on the wire; an absent message or absent data is empty
+//@ spec msgWire(c *conformancev1.MessageContents) string = (c == nil || c.Data == nil) ? "" : compressOf(cmpId(c.Compression), msgPayload(c))
+//@ spec knownData(c *conformancev1.MessageContents) bool = c == nil || c.Data == nil ||
+//@    (typeis(c.Data, *conformancev1.MessageContents_Binary) && unbox(c.Data, *conformancev1.MessageContents_Binary) != nil) ||
+//@    (typeis(c.Data, *conformancev1.MessageContents_Text) && unbox(c.Data, *conformancev1.MessageContents_Text) != nil) ||
+//@    (typeis(c.Data, *conformancev1.MessageContents_BinaryMessage) && unbox(c.Data, *conformancev1.MessageContents_BinaryMessage) != nil && unbox(c.Data, *conformancev1.MessageContents_BinaryMessage).BinaryMessage != nil)
+
+//@ func WriteRawMessageContents
+//@   requires knownData(contents) && writer != nil
+//@   modifies wrOut, bufContent, cmpDst, cmpBuf, cmpBase, cmpBaseB
+//@   ensures @wire result == nil ==> wrOut[writer] == old(wrOut[writer]) + msgWire(contents)
+//@   ensures @buffer result == nil && typeis(writer, *bytes.Buffer) ==> bufContent[unbox(writer, *bytes.Buffer)] == old(bufContent[unbox(writer, *bytes.Buffer)]) + msgWire(contents)
+//@   ensures @others forall w io.Writer :: w != writer ==> wrOut[w] == old(wrOut[w])
+//@   ensures @otherbufs forall b *bytes.Buffer :: box(b) != writer ==> bufContent[b] == old(bufContent[b])
+
+// one enveloped item: flags byte, 4-byte big-endian length (the explicit one if given, else
+// the actual length of the encoded payload), then the encoded payload
+//@ spec prefixStr(f int, n int) string = str1(f) + be32(n)
+//@ spec itemWire(it *conformancev1.StreamContents_StreamItem) string =
+//@    prefixStr(it.Flags, it.Length != nil ? *it.Length : len(msgWire(it.Payload))) + msgWire(it.Payload)
+//@ lemma prefixBytes(s string, f int, n int)
+//@   requires len(s) == 5 && 0 <= f && f <= 255 && 0 <= n && n <= 4294967295
+//@   requires s[0] == f && s[1] == n / 16777216 && s[2] == (n / 65536) % 256 && s[3] == (n / 256) % 256 && s[4] == n % 256
+//@   ensures streq(s, prefixStr(f, n))
+//@ spec streamWire(items []*conformancev1.StreamContents_StreamItem, n int) string = n <= 0 ? "" : streamWire(items, n - 1) + itemWire(items[n-1])
+//@ spec wfItems(items []*conformancev1.StreamContents_StreamItem) bool = forall k int :: 0 <= k && k < len(items) ==>
+//@    items[k] != nil && knownData(items[k].Payload) && len(msgWire(items[k].Payload)) <= 4294967295
+
+//@ func WriteRawStreamContents
+//@   requires contents != nil && writer != nil && wfItems(contents.Items)
+//@   modifies wrOut, bufContent, cmpDst, cmpBuf, cmpBase, cmpBaseB
+//@   ensures @wire result == nil ==> streq(wrOut[writer], old(wrOut[writer]) + old(streamWire(contents.Items, len(contents.Items))))
+//@   ensures @flags result == nil ==> forall k int :: 0 <= k && k < len(contents.Items) ==> contents.Items[k].Flags <= 255
+//@   assert_at "_, err := writer.Write(prefix[:])"#1: streq(bytes(prefix[:]), prefixStr(item.Flags, *item.Length))
+//@   assert_at "_, err := writer.Write(prefix[:])"#2: streq(bytes(prefix[:]), prefixStr(item.Flags, len(bufContent[buf])))
+//@   assert_at "uint32(buf.Len())": box(buf) != writer
+//@   assert_at "uint32(buf.Len())": bufContent[buf] == msgWire(item.Payload)
+//@   assert_at "uint32(buf.Len())": wrOut[writer] == atpre(wrOut[writer]) + atpre(streamWire(contents.Items, i))
+//@   assert_at "if err != nil {"#2: msgWire(item.Payload) == atpre(msgWire(contents.Items[i].Payload))
+//@   assert_at "if err != nil {"#2: err == nil ==> wrOut[writer] == atpre(wrOut[writer]) + atpre(streamWire(contents.Items, i)) + (prefixStr(item.Flags, len(msgWire(item.Payload))) + msgWire(item.Payload))
+//@   loop 0: invariant streq(wrOut[writer], atpre(wrOut[writer]) + atpre(streamWire(contents.Items, rangeindex + 1)))
+//@           invariant forall k int :: 0 <= k && k <= rangeindex ==> contents.Items[k].Flags <= 255
